@@ -30,8 +30,14 @@ def crash_sig(panic):
 def judge(res, obs, case, probe=None):
     """Judges one observation of a pipeline case."""
     if obs.get("watchdog"):
+        cpu = obs.get("cpu_s")
+        if cpu is not None and cpu * 1e9 >= CPU_BUDGET_NS:
+            # deterministic criterion: the case consumed more than the CPU budget before the watchdog fired
+            res.violation("hang", "cpu-budget", "more than %.0f s of CPU without an answer" % cpu, case)
+            return
         # inconclusive: re-run alone with a 10x watchdog; violation only by a deterministic criterion
-        if probe is not None:
+        if probe is not None and res.counters.get("reruns", 0) < 20:
+            res.count("reruns")
             obs2 = probe.run({"op": "pipeline", "text": case["text"], "budget": STEP_BUDGET}, timeout=300.0)
             if not obs2.get("watchdog"):
                 return judge(res, obs2, case, None)
@@ -56,7 +62,9 @@ def judge(res, obs, case, probe=None):
 
 
 def gen_case(rng, i):
-    k = i % 5
+    k = i % 6
+    if k == 5:
+        return {"gen": "unicode", "text": hostile.unicode_case(rng)}
     if k == 0:
         return {"gen": "bytes", "text": hostile.random_bytes_text(rng)}
     if k == 1:
@@ -74,14 +82,18 @@ def shard(shard, nshards, payload):
     n = payload["n"]
     seed = payload["seed"]
     probe = core.Probe()
+    probe.max_watchdogs = None
     max_steps = 0
     try:
         for i in range(shard, n, nshards):
+            if res.counters.get("sig:hang:cpu-budget", 0) >= 2:
+                res.count("stopped-early-after-hangs")
+                break
             rng = core.rng_for(seed, "c04", i)
             case = gen_case(rng, i)
             if len(case["text"].encode("utf-8", "replace")) > 65536:
                 continue
-            obs = probe.run({"op": "pipeline", "text": case["text"], "budget": STEP_BUDGET}, timeout=30.0)
+            obs = probe.run({"op": "pipeline", "text": case["text"], "budget": STEP_BUDGET}, timeout=25.0)
             res.evaluations += 1
             res.count("gen:" + case["gen"].split(":")[0])
             judge(res, obs, case, probe)
@@ -123,13 +135,19 @@ def cli_shard(shard, nshards, payload):
             path = os.path.join(tmp, "f%d.st" % i)
             with open(path, "wb") as f:
                 f.write(data)
+            if res.counters.get("sig:hang:cli:cpu-budget", 0) >= 2:
+                res.count("stopped-early-after-hangs")
+                break
             for cmd in ("check", "echo", "tokenize"):
-                r = core.run_cli([cmd, path], tmp)
+                r = core.run_cli([cmd, path], tmp, timeout=25.0)
                 res.evaluations += 1
                 res.count("cli:" + cmd)
                 case = {"gen": gen, "cli": cmd, "hex": data[:4000].hex()}
                 if r["watchdog"]:
-                    res.inconclusive.append({"why": "cli watchdog", "case": case})
+                    if (r.get("cpu_s") or 0) * 1e9 >= CPU_BUDGET_NS:
+                        res.violation("hang", "cli:cpu-budget", "more than %.0f s of CPU" % r["cpu_s"], case)
+                    else:
+                        res.inconclusive.append({"why": "cli watchdog", "case": case})
                 elif r["rc"] is None or r["rc"] < 0 or r["rc"] == 101 or r["rc"] >= 128:
                     pm = core.cli_panic(r["err"])
                     sig = "cli:rc=%s" % r["rc"]
@@ -165,6 +183,7 @@ def asan_shard(shard_i, nshards, payload):
     res = core.Result()
     env = dict(os.environ, ASAN_OPTIONS="halt_on_error=1:abort_on_error=1:detect_leaks=0")
     probe = core.Probe(binary=ASAN_BIN, env=env)
+    probe.max_watchdogs = None
     try:
         for i in range(shard_i, payload["n_asan"], nshards):
             rng = core.rng_for(payload["seed"], "c04asan", i)
@@ -291,6 +310,7 @@ def witnesses():
     fs = [f for f in core.load_findings("C04") if f.get("witness")]
     if fs:
         probe = core.Probe()
+        probe.max_watchdogs = None
         for f in fs:
             case = {"gen": "witness:" + f["id"], "text": f["witness"]["text"]}
             obs = probe.run({"op": "pipeline", "text": case["text"], "budget": STEP_BUDGET}, timeout=60.0)
